@@ -135,7 +135,8 @@ def reshape_failure_cases(
         )
 
     return (
-        reshaped_failure_cases.dropna()  # type: ignore[return-value]
+        # a null failure case is ignored, whatever the label of its row
+        reshaped_failure_cases.dropna(subset=["failure_case"])  # type: ignore[return-value]
         if ignore_na
         else reshaped_failure_cases
     )
